@@ -284,6 +284,43 @@ def r_exponent_lattice_rational(m):
     return dict(observed='all lists: relations hold and the known relation is generated', expected='', violates=False)
 
 
+def _closed_form(src, goal):
+    """E(goal) of the real pipeline as a sympy expression in n (general part) plus special values"""
+    import sympy as sp
+    from inputparser import Parser
+    from program.transformer import normalize_program
+    from recurrences import RecBuilder
+    from recurrences.solver import RecurrenceSolver
+    prog = normalize_program(Parser().parse_string(src))
+    rb = RecBuilder(prog)
+    mono = sp.sympify(goal)
+    from symengine.lib.symengine_wrapper import sympify as ssym
+    recs = rb.get_recurrences(ssym(goal))
+    solver = RecurrenceSolver(recs, False, False, 0)
+    return sp.sympify(str(solver.get(ssym(goal))))
+
+
+def r_constants_inlining(m):
+    """the real pipeline on programs whose initial block defines variables from other variables / assigns a variable twice"""
+    import sympy as sp
+    n = sp.Symbol('n', integer=True)
+    cases = [("x = 0\ny = x + 1\nz = 0\nwhile true:\n    x = x + 1\n    z = z + y\nend", 'z', lambda k: k),
+             ("x = 0\ny = 5\ny = x + 1\nz = 0\nwhile true:\n    x = x + 1\n    z = z + y\nend", 'z', lambda k: k),
+             ("x = 0\ny = 5\nu = y + x\ny = 7\nz = 0\nwhile true:\n    x = x + 1\n    z = z + u + y\nend", 'z', lambda k: 12 * k),
+             ("x = 2\ny = 3\nz = 0\nwhile true:\n    x = x + 1\n    z = z + y\nend", 'z', lambda k: 3 * k)]
+    for src, goal, want in cases:
+        try:
+            cf = _closed_form(src, goal)
+        except Exception as ex:
+            return dict(observed=f'{src!r}: E({goal}) raised {type(ex).__name__}: {ex}', expected='a closed form', violates=True, input=src)
+        for k in range(1, 5):
+            v = cf.subs({sp.Symbol('n'): k, n: k})
+            if isinstance(v, sp.Piecewise) or v.has(sp.Piecewise): v = sp.piecewise_fold(v)
+            if sp.simplify(v - want(k)) != 0:
+                return dict(observed=f'{src!r}: E({goal}) at n={k} is {v}', expected=str(want(k)), violates=True, input=src)
+    return dict(observed='all programs agree', expected='', violates=False)
+
+
 def main():
     req = json.load(sys.stdin)
     kind = req['replay']['kind']
